@@ -88,3 +88,11 @@ Theorem c05_prefix_search_is_spec : forall ps key T, Forall is_bytes ps -> is_by
   exists l, prefix_search T key = Ok l /\ NoDup l /\ (forall y, In y l <-> In y (spec_prefix true ps key)).
 Proof. exact prefix_search_spec. Qed.
 Print Assumptions c05_prefix_search_is_spec.
+
+(* FuzzySearch(key): no panic (slices and Truncate in range, fail links present), no fuel exhaustion; every returned string
+   is an inserted non-empty pattern *)
+From V Require Import Proofs.TrieFuzzy.
+Theorem c05_fuzzy_sound : forall ps key T, Forall is_bytes ps -> is_bytes key -> built ps T ->
+  exists l, fuzzy_search T key = Ok l /\ forall y, In y l -> In y ps /\ y <> [].
+Proof. exact fuzzy_search_sound. Qed.
+Print Assumptions c05_fuzzy_sound.
